@@ -134,7 +134,7 @@ SPECS = {
     "C01": _hnd("c01", extra=HNDB_FILES + ["Proofs/HandlerB_Examples.v"]),
     "C02": _hnd("c02", extra=HNDB_FILES + ["Proofs/HandlerB_Examples.v"]),
     "C03": _hnd("c03", extra=HNDB_FILES + ["Proofs/HandlerB_Examples.v"]),
-    "C04": _hnd("c04", extra=["Proofs/HandlerInv.v", "Proofs/HandlerA_Ledger.v"]),
+    "C04": _hnd("c04", extra=["Proofs/HandlerInv.v", "Proofs/HandlerA_Ledger.v", "Proofs/HandlerA_Nonce.v", "Proofs/HandlerA_Progress.v"]),
     "C13": _hnd("c13", extra=["Proofs/HandlerInv.v"]),
     "C19": _hnd("c19", extra=HNDB_FILES + ["Proofs/HandlerB_Examples.v"]),
     "C17": {
